@@ -30,7 +30,13 @@ TSAN = ['-fsanitize=thread']       # replay of data-race counterexamples
 
 
 def sanflags(san):
-    return TSAN if san == 'tsan' else (SAN if san else [])
+    if san == 'tsan':
+        return TSAN
+    if san == 'stackpat':       # automatic variables pre-filled with a pattern / with zero: two builds whose outputs must agree
+        return SAN + ['-ftrivial-auto-var-init=pattern']
+    if san == 'stackzero':
+        return SAN + ['-ftrivial-auto-var-init=zero', '-enable-trivial-auto-var-init-zero-knowing-it-will-be-removed-from-clang']
+    return SAN if san else []
 
 
 def sh(cmd, **kw):
